@@ -85,6 +85,24 @@ def _modsizes():
 _before_mod = [None]
 
 
+def judge_nested(c):
+    """Nested calls (CTLS -> CTL/LTL on the clone) must not touch their own
+    arguments either: the caller keeps labelling that clone between calls."""
+    if not c.nested or c.nk is None:
+        return
+    LOG.hit('c07.structure_nested', c.site)
+    if c.post is None or c.pre != c.post:
+        diff = snapshot_diff(c.pre, c.post or {})
+        LOG.violation('c07.structure', PROP, c.case(), {'changed': diff},
+                      'structure unchanged',
+                      note='a nested modelcheck call changed the structure '
+                           'it was given: ' + ', '.join(diff))
+    if c.text is None and c.tree is not None and c.tree_after != c.tree:
+        LOG.violation('c07.formula', PROP, c.case(),
+                      show(c.tree_after) if c.tree_after else None,
+                      show(c.tree), note='nested call modified its formula')
+
+
 def judge(c):
     if c.nested or c.nk is None:
         return
@@ -161,8 +179,9 @@ def attach():
         _modstate_mods.append(sys.modules['pyModelChecking.kripke'])
         return True
     mon.attach_once('c07', do)
-    if judge not in mcwrap.judges:
-        mcwrap.judges.append(judge)
+    for j in (judge, judge_nested):
+        if j not in mcwrap.judges:
+            mcwrap.judges.append(j)
 
 
 def make_pool(r):
